@@ -19,3 +19,17 @@ Definition transfer_gate (reg : list (Z * reg_entry_x)) (denom amount : Z) : boo
   | None => false
   | Some e => negb (re_alias e) && has_perm (re_bits e) PERM_IBCEXPORT && (0 <? amount)
   end.
+
+(* x/tokenregistry/keeper: the registry is one list; SetToken (MsgRegister) replaces the first entry of the denom or appends,
+   RemoveToken (MsgDeregister) drops every entry of the denom, GetEntry returns the first entry of the denom *)
+Section Edits.
+Context {E : Type}.
+Fixpoint lookup (d : Z) (reg : list (Z * E)) : option E :=
+  match reg with [] => None | (k, e) :: rest => if k =? d then Some e else lookup d rest end.
+Fixpoint set_token (d : Z) (e : E) (reg : list (Z * E)) : list (Z * E) :=
+  match reg with
+  | [] => [(d, e)]
+  | (k, x) :: rest => if k =? d then (d, e) :: rest else (k, x) :: set_token d e rest
+  end.
+Definition remove_token (d : Z) (reg : list (Z * E)) : list (Z * E) := filter (fun kv => negb (fst kv =? d)) reg.
+End Edits.
